@@ -229,6 +229,30 @@ func jobC18(c *rt.Ctx) {
 			})
 		}
 	}
+	// Contract on representations in which one limb holds an extra bit that only the carry pass
+	// moves up (limb k + 2^bits, limb k+1 - 1: the same integer): a test made on the raw limbs
+	// before the carries sees a top limb below saturation while the value is in [p, 2^255)
+	for bi, b := range sp {
+		for k := 0; k+1 < nLimbs; k++ {
+			if !c.Take() {
+				continue
+			}
+			l := getLimbs(&b.x)
+			if l[k+1] == 0 || bi == len(sp)-1 {
+				continue
+			}
+			l[k] += uint64(1) << limbBits[k]
+			l[k+1]--
+			e := mk(l, "carry")
+			c.Distinct(fmt.Sprintf("contract-carry %d %d", bi, k), true)
+			var cb [32]byte
+			Contract(cb[:], &e.x)
+			c.Step(1)
+			if wantB := ref.ToLE(e.v, 32); e.v.Cmp(b.v) != 0 || !bytes.Equal(cb[:], wantB) {
+				c.Violation("C18 Contract carry-chain", fmt.Sprintf("Contract of limbs %v is %x, canonical value is %x", l, cb, wantB), map[string]interface{}{"limbs": fmt.Sprint(l), "observed": ref.Hex(cb[:]), "expected": ref.Hex(wantB)})
+			}
+		}
+	}
 	c.Extra("class_R_elements", int64(len(R)+len(Rextra)))
 	report := func(op string, a, b *elem, out *Bignum25519, want *big.Int, why string) {
 		d := map[string]interface{}{"op": op, "a_limbs": fmt.Sprint(getLimbs(&a.x)), "a_class": a.class, "out_limbs": fmt.Sprint(getLimbs(out)), "expected_value": want.String(), "observed_value": valueOf(out).String(), "why": why}
